@@ -564,8 +564,10 @@ def sync_aware_insertion(state: VRPState, rng: Random) -> VRPState:
             state.unassigned.remove(cid)
             state.sync_assignments[cid] = {v for v, _ in best_insertions}
 
+    unplaced = [c for c in multi if c in state.unassigned]
     state.unassigned = set(single)
     state = regret_insertion(state, rng)
+    state.unassigned.update(unplaced)  # multi-vehicle customers that found no vehicles stay unassigned
 
     state.update_arrival_times()
     return state
